@@ -67,6 +67,17 @@ def handle : List String → Option String
          | "B" => showOut (brierScoreTest (α := Float) rq rb ds cs rows)
          | _ => "bad-op")
       | _, _, _, _, _ => "bad-op")
+  -- c16_stream <L|B> <dims> <rates n/d> <rates bits> <counts> <nsim> <stream n/d> : the default random path
+  | ["c16_stream", m, ds, rq, rb, cs, k, st] =>
+      some (match parseList? parseNat? ds, parseList? parseRat? rq, parseList? parseFloat? rb, parseList? parseNat? cs,
+                  k.toNat?, parseList? parseRat? st with
+      | some ds, some rq, some rb, some cs, some k, some st =>
+        if rq.length ≠ rb.length ∨ rq.length ≠ cs.length then "bad-op" else
+        (match m with
+         | "L" => showOut (binaryLikelihoodTestStream (α := Float) rq rb cs k st)
+         | "B" => showOut (brierScoreTestStream (α := Float) rq rb ds cs k st)
+         | _ => "bad-op")
+      | _, _, _, _, _, _ => "bad-op")
   | ["c16_bsim", d, c] => some (match parseList2? parseFloat? d, parseList? parseNat? c with
       | some d, some c => showFloat (brierSimStat (α := Float) d c)
       | _, _ => "bad-op")
